@@ -190,19 +190,24 @@ def run(tier, seed):
     seqs2c = [("compress",), ("compress", "compress"), ("unpack", "compress"), ("compress", "remove_nonadj"),
               ("copy", "compress")]
 
-    def shard2(firsts):
+    def shard2(prefixes):
         a = kernel.Acc()
-        for prog in kernel.programs(alpha2, d2, first=firsts):
-            nsw = sum(1 for o in prog if o[0] == "sw")
-            nher = sum(1 for o in prog if o[0] == "add" and o[1] != "bs2")
-            if nsw < 2 or (tier == "quick" and len(prog) == d2 and nsw < 3 and not (nher == 1 and prog[-1][0] == "add")):
-                continue
-            for seq in (seqs2c[:1] + seqs2c[2:3] + (seqs2c[1:2] if nsw >= 3 else []) if tier == "quick" else seqs2c):
-                a.tick("executions"); a.tick("transitions", len(seq)); a.tick("stage2_cases")
-                run_case(n2, prog, seq, env, a)
+        for pre in prefixes:
+            for d in range(0, d2 - 1):
+                for rest in itertools.product(alpha2, repeat=d):
+                    prog = pre + rest
+                    nsw = sum(1 for o in prog if o[0] == "sw")
+                    nher = sum(1 for o in prog if o[0] == "add" and o[1] != "bs2")
+                    if nsw < 2 or (tier == "quick" and len(prog) == d2 and nsw < 3 and not (nher == 1 and prog[-1][0] == "add")):
+                        continue
+                    for seq in (seqs2c[:1] + seqs2c[2:3] + (seqs2c[1:2] if nsw >= 3 else []) if tier == "quick" else seqs2c):
+                        a.tick("executions"); a.tick("transitions", len(seq)); a.tick("stage2_cases")
+                        run_case(n2, prog, seq, env, a)
         return a
 
-    acc.merge(kernel.pmap(shard2, kernel.interleave(alpha2, kernel.NPROC * 2)))
+    # sharded by the first two operations (programs shorter than 2 hold fewer than 2 swaps and are not cases)
+    pairs = list(itertools.product(alpha2, repeat=2))
+    acc.merge(kernel.pmap(shard2, kernel.interleave(pairs, kernel.NPROC * 6)))
     meta = {
         "rule": "every program of length <= depth over the rich alphabet (heralded/plain/grouped/lossy sub-circuits at "
                 "every placement, reversed and non-adjacent beam splitters in both conventions, loss, 3-cycles, unitary "
